@@ -111,6 +111,42 @@ PROPS = {
         assumptions=['objects are not shared between simulations (nested or parallel)'],
         partial=['threads_isolated is not a theorem (runtime fact; differential runs in 8 real threads)'],
     ),
+    'C03': dict(
+        gen=['Scope', 'Timing'], props=['C03', 'Skeletons'], model=['Machine/Run', 'Machine/Step', 'Machine/Kernel', 'Judge/Judges'], harness='c03',
+        trusted_base=KERNEL_TB + MACHINE_TB + ['coroutine skeletons pinned by regenerated templates (context.py, task.py, timing/notification/condition/flag, tracked.py)'],
+        assumptions=['valid programs only: the generators avoid usage errors (past at= dates, negative delays, inverting a Moment)'],
+        partial=["the global invariants (every live signal has its frame on its owner's stack; termination / no livelock) are not proved: exact trace correspondence + judge only"],
+    ),
+    'C04': dict(
+        gen=['Scope'], props=['C04'], model=['Machine/Run', 'Machine/Step', 'Machine/Kernel', 'Judge/Judges'], harness='c04',
+        trusted_base=KERNEL_TB + MACHINE_TB + ['coroutine skeletons pinned by regenerated templates (context.py, task.py, timing/notification/condition/flag, tracked.py)'],
+        assumptions=['valid programs only: the generators avoid usage errors (past at= dates, negative delays, inverting a Moment)'],
+        partial=['the containment invariant over all reachable machine states is not proved: exact trace correspondence + judge only'],
+    ),
+    'C05': dict(
+        gen=['Scope'], props=['C05'], model=['Machine/Run', 'Machine/Step', 'Machine/Kernel', 'Judge/Judges'], harness='c05',
+        trusted_base=KERNEL_TB + MACHINE_TB + ['coroutine skeletons pinned by regenerated templates (context.py, task.py, timing/notification/condition/flag, tracked.py)'],
+        assumptions=['valid programs only: the generators avoid usage errors (past at= dates, negative delays, inverting a Moment)'],
+        partial=['prompt_abort (block ends in the time step of the first failure) is not proved: judge + correspondence only'],
+    ),
+    'C06': dict(
+        gen=['Scope'], props=['C06'], model=['Machine/Run', 'Machine/Step', 'Machine/Kernel', 'Judge/Judges'], harness='c06',
+        trusted_base=KERNEL_TB + MACHINE_TB + ['coroutine skeletons pinned by regenerated templates (context.py, task.py, timing/notification/condition/flag, tracked.py)'],
+        assumptions=['valid programs only: the generators avoid usage errors (past at= dates, negative delays, inverting a Moment)'],
+        partial=['the projection of machine steps onto lifecycle actions is not proved (tied by correspondence)'],
+    ),
+    'C07': dict(
+        gen=['Scope', 'Timing'], props=['C07', 'C02', 'Skeletons'], model=['Machine/Run', 'Machine/Step', 'Machine/Kernel', 'Judge/Judges'], harness='c07',
+        trusted_base=KERNEL_TB + MACHINE_TB + ['coroutine skeletons pinned by regenerated templates (context.py, task.py, timing/notification/condition/flag, tracked.py)'],
+        assumptions=['valid programs only: the generators avoid usage errors (past at= dates, negative delays, inverting a Moment)'],
+        partial=["until_exit_time (body abandoned and children closed in the trigger's time step) is not proved: judge + correspondence only"],
+    ),
+    'C08': dict(
+        gen=['Tracked', 'Timing'], props=['C08'], model=['Machine/Run', 'Machine/Step', 'Machine/Kernel', 'Judge/Judges'], harness='c08',
+        trusted_base=KERNEL_TB + MACHINE_TB + ['coroutine skeletons pinned by regenerated templates (context.py, task.py, timing/notification/condition/flag, tracked.py)'],
+        assumptions=['valid programs only: the generators avoid usage errors (past at= dates, negative delays, inverting a Moment)'],
+        partial=['truth_at_resume and no-lost-wake-up are not proved on the machine: judge + correspondence only (F8: false for nested connectives)'],
+    ),
 }
 
 #: texts for MANIFEST.json (level, note, technique, DESIGN.md section)
@@ -211,4 +247,34 @@ MANIFEST_TEXT = {
         note='trusted: Lean kernel + standard axioms; templates; threading.local/GIL assumed (runtime clause is partial)',
         technique='Lean 4 kernel theorems + exact whole-machine traces + Lean trace judge + real-thread differential runs',
         design_ref='6 (C15), 9'),
+    'C03': dict(
+        level='Lean 4 theorems: wake_revoked_on_every_exit/return (postpone and suspend revoke their wake-up on every exit path), revoked_never_runs, stale_activation_is_reported, pinned skeletons. The executable whole-machine model reproduces the real usim to the turn on scope trees and random valid programs with faults at every activation boundary; the Lean judge checks on every implementation trace: outcome of run(), exceptions seen by handlers and task failures never carry an internal signal/assertion/misuse error; no activation bound exceeded.',
+        note='trusted: Lean kernel + standard axioms; templates/translator; whole-machine model tied by exact traces; the global invariants (every live signal has its frame on its owners stack; termination / no livelock) are not proved: exact trace correspondence + judge only',
+        technique='Lean 4 theorems (decision logic / per-primitive / frame level) + exact whole-machine differential traces + Lean trace judge',
+        design_ref='6 (C03), 3, 4.B'),
+    'C04': dict(
+        level='Lean 4 theorems: childFinished_children/volatile (exact child bookkeeping), spawn_after_end_refused (late do() raises ScopeClosed, creates and schedules nothing), pinned skeletons. The executable whole-machine model reproduces the real usim to the turn on scope trees and random valid programs with faults at every activation boundary; the Lean judge checks on every implementation trace: after every scope exit none of its (transitive) tasks acts, all are done, no late spawn succeeds, non-volatile children of a normally ending plain scope ran to completion before volatile ones were closed.',
+        note='trusted: Lean kernel + standard axioms; templates/translator; whole-machine model tied by exact traces; the containment invariant over all reachable machine states is not proved: exact trace correspondence + judge only',
+        technique='Lean 4 theorems (decision logic / per-primitive / frame level) + exact whole-machine differential traces + Lean trace judge',
+        design_ref='6 (C04), 3, 4.B'),
+    'C05': dict(
+        level="Lean 4 theorems: collect_spec, propagate_eq, concurrent_content (exact children, in order, never cancellations/closures, only when the body has no exception of its own), body_exception_wins, privileged_first, privileged_body_propagates over the translated decision logic and tuples. The executable whole-machine model reproduces the real usim to the turn on scope trees and random valid programs with faults at every activation boundary; the Lean judge checks on every implementation trace: content and order of every caught Concurrent against the children's recorded failures, privileged unwrapping, exit time = first failure time.",
+        note='trusted: Lean kernel + standard axioms; templates/translator; whole-machine model tied by exact traces; prompt_abort (block ends in the time step of the first failure) is not proved: judge + correspondence only',
+        technique='Lean 4 theorems (decision logic / per-primitive / frame level) + exact whole-machine differential traces + Lean trace judge',
+        design_ref='6 (C05), 3, 4.B'),
+    'C06': dict(
+        level='Lean 4 theorems: status_forward, result_write_once/result_stable, cancel_created_runs_nothing, cancel_finished_noop, cancel_suspended, done_has_result over an open lifecycle model, for every action sequence. The executable whole-machine model reproduces the real usim to the turn on scope trees and random valid programs with faults at every activation boundary; the Lean judge checks on every implementation trace: status samples monotone, awaiters agree, cancel-before-start runs nothing, cancel of a suspended task ends it in that time step, TaskCancelled carries a passed token.',
+        note='trusted: Lean kernel + standard axioms; templates/translator; whole-machine model tied by exact traces; the projection of machine steps onto lifecycle actions is not proved (tied by correspondence)',
+        technique='Lean 4 theorems (decision logic / per-primitive / frame level) + exact whole-machine differential traces + Lean trace judge',
+        design_ref='6 (C06), 3, 4.B'),
+    'C07': dict(
+        level='Lean 4 theorems: subscribe_already_true, subscribe_not_yet, trigger_schedules_interrupt (with awakeAll_order), pinned skeletons. The executable whole-machine model reproduces the real usim to the turn on scope trees and random valid programs with faults at every activation boundary; the Lean judge checks on every implementation trace: every until-scope ends no later than its notification fires (delays, dates, flags, two-flag connectives), never-ending blocks whose notification fired.',
+        note='trusted: Lean kernel + standard axioms; templates/translator; whole-machine model tied by exact traces; until_exit_time (body abandoned and children closed in the triggers time step) is not proved: judge + correspondence only',
+        technique='Lean 4 theorems (decision logic / per-primitive / frame level) + exact whole-machine differential traces + Lean trace judge',
+        design_ref='6 (C07), 3, 4.B'),
+    'C08': dict(
+        level='Lean 4 theorems: invert_negates/invert_all/invert_any (~c is not c for every expression tree and valuation: De Morgan at any depth, After/Before, Eternity/Instant, operator table translated from tracked.py), double_inversion, eval_and/eval_or; invert_reslevel_not_negation (F13). The executable whole-machine model reproduces the real usim to the turn on scope trees and random valid programs with faults at every activation boundary; the Lean judge checks on every implementation trace: every await returns with its condition true, no waiter is left waiting at quiescence with a true condition, bool() of derived conditions equals the boolean-algebra reading.',
+        note='trusted: Lean kernel + standard axioms; templates/translator; whole-machine model tied by exact traces; truth_at_resume and no-lost-wake-up are not proved on the machine: judge + correspondence only (F8: false for nested connectives)',
+        technique='Lean 4 theorems (decision logic / per-primitive / frame level) + exact whole-machine differential traces + Lean trace judge',
+        design_ref='6 (C08), 3, 4.B'),
 }
